@@ -223,6 +223,12 @@ def _guard_atoms(p, upto, ev=None):
     """atomic boolean facts that hold when event `ev` executes: decisions taken earlier on the path plus the short-circuit conditions enclosing it"""
     for d in p.decisions(upto):
         if d.d["how"] not in ("if",):
+            # comparisons established by pattern matching (literal / range patterns, let-else …) count like `if` tests
+            for fct in decision_facts(d):
+                if fct[0] == "rel" and fct[1] in ("<", "<=", ">", ">=", "==", "!="):
+                    yield ("bin", fct[1], unmut(fct[2]), unmut(fct[3])), True
+                elif fct[0] == "eq" and isinstance(fct[2], int) and not isinstance(fct[2], bool):
+                    yield ("bin", "==", unmut(fct[1]), C(fct[2])), True
             continue
         yield from _atoms_with_polarity(unmut(d.d["cond"]), d.d["outcome"] is True)
     if ev is not None:
@@ -232,8 +238,8 @@ def _guard_atoms(p, upto, ev=None):
 
 def guard_ge(p, upto, l, r, ev=None):
     """a decision before `upto` on this path implies l ≥ r (so `l − r` cannot underflow)"""
-    la = affine(l)
-    ra = affine(r)
+    la = affine(unmut(l))
+    ra = affine(unmut(r))
     if True:
         for c, pol in _guard_atoms(p, upto, ev):
             if c[0] != "bin":
@@ -241,6 +247,11 @@ def guard_ge(p, upto, l, r, ev=None):
             op, a, b = c[1], affine(c[2]), affine(c[3])
             if not pol:
                 op = {"<": ">=", "<=": ">", ">": "<=", ">=": "<", "==": "!=", "!=": "=="}.get(op, op)
+            if op == "!=" and (b == (0, {}) or a == (0, {})):
+                # an unsigned value that is not 0 is at least 1
+                if a == (0, {}):
+                    a, b = b, a
+                op = ">"
             # a OP b  ⇒ l ≥ r ?
             if op in (">", ">=") and aff_eq(a, la):
                 diff = aff_sub(b, ra)   # b − r, need b ≥ r (for >: b + 1 ≥ r)
@@ -273,7 +284,7 @@ def _atoms_with_polarity(c, truth):
 
 def guard_le_const(p, upto, l, ev=None):
     """largest K such that a decision before `upto` implies l ≤ K (else None)"""
-    la = affine(l)
+    la = affine(unmut(l))
     best = None
     if True:
         for c, pol in _guard_atoms(p, upto, ev):
@@ -888,7 +899,7 @@ def r_zxy_guard(ctx):
     if not idf:
         return no_anchor("R-ZXY-GUARD", "coordinate→id conversion (function calling hilbert_2d::xy2h_discrete)")
     idfn = set(f["path"] for f in idf)
-    lookups = [f for f in ctx.user_fns() if f["vis"] == "pub" and any(c["fn"] in idfn for c in calls(f["body"])) and "Option<alloc::vec::Vec<u8>>" in f["ret"]]
+    lookups = [f for f in ctx.user_fns() if f["vis"] == "pub" and (ctx.calls_deep(f) & idfn) and "Option<alloc::vec::Vec<u8>>" in f["ret"]]
     if not lookups:
         return no_anchor("R-ZXY-GUARD", "lookup by coordinates (public function converting z/x/y to an id and returning tile bytes)")
     maxz = SPEC["max_zoom"]
@@ -1210,7 +1221,7 @@ def r_hilbert_call(ctx):
             hc = [e for e in p.events if e.kind == "call" and "xy2h_discrete" in e.d["fn"]]
             v = unmut(p.value)
             if not hc:
-                ok = v == C(0) and any(_is_eq0(unmut(d.d["cond"]), P.get("z"), d.d["outcome"]) for d in p.decisions())
+                ok = v == C(0) and knows(p, ("eq", P.get("z"), 0)) is not None
                 obs.append(Ob("R-HILBERT-CALL", f["path"], "zoom 0 ⇒ id 0", ok, "returns %s" % tstr(v)[:60], rel(f["loc"])))
                 continue
             a = [_strip_cast(unmut(x)) for x in hc[0].d["args"]]
@@ -1233,7 +1244,7 @@ def r_hilbert_call(ctx):
             v = unmut(p.value)
             tup = v[2][0] if is_call_to(v, lambda s: s == "core::result::Result::Ok") and v[2] else None
             if not hc:
-                ok = tup == ("tup", (C(0), C(0), C(0))) and any(_is_eq0(unmut(d.d["cond"]), tid, d.d["outcome"]) for d in p.decisions())
+                ok = tup == ("tup", (C(0), C(0), C(0))) and knows(p, ("eq", tid, 0)) is not None
                 obs.append(Ob("R-HILBERT-CALL", f["path"], "id 0 ⇒ 0/0/0", ok, "returns %s" % tstr(v)[:60], rel(f["loc"])))
                 continue
             a = [unmut(x) for x in hc[0].d["args"]]
@@ -1296,4 +1307,6 @@ def _filtered_by(key, fr):
 
 def _is_inclusive_end(end, rfn, fr):
     end = unmut(end)
+    if is_call_to(end, lambda s: s in rfn) and end[2] and end[2][0] == fr:
+        return True      # the payload of `range_end(filter)` matched as Some(end): an unbounded range never gets here
     return is_call_to(end, lambda s: s.endswith("::unwrap_or")) and is_call_to(end[2][0], lambda s: s in rfn) and end[2][0][2][0] == fr and end[2][1] == C((1 << 64) - 1)
